@@ -10,9 +10,11 @@ namespace CV.C01
 
 namespace Dep
 
-theorem searchChildren_congr (s1 s2 : List String → String → R) (path : List String)
+variable {α : Type} [DecidableEq α]
+
+theorem searchChildren_congr (s1 s2 : List α → α → R α) (path : List α)
     (h : ∀ p n, s1 p n ≠ .outOfFuel → s2 p n = s1 p n) :
-    ∀ (cs : List String), searchChildren s1 path cs ≠ .outOfFuel → searchChildren s2 path cs = searchChildren s1 path cs
+    ∀ (cs : List α), searchChildren s1 path cs ≠ .outOfFuel → searchChildren s2 path cs = searchChildren s1 path cs
   | [], _ => by simp [searchChildren]
   | name :: rest, hne => by
     unfold searchChildren at hne ⊢
@@ -30,14 +32,14 @@ theorem searchChildren_congr (s1 s2 : List String → String → R) (path : List
         have := h (path ++ [name]) name (by rw [hs]; intro e; cases e)
         rw [this, hs]
 
-theorem searchCycle_mono (g : G) : ∀ (fuel : Nat) (path : List String) (v : String),
+theorem searchCycle_mono (g : G α) : ∀ (fuel : Nat) (path : List α) (v : α),
     searchCycle g fuel path v ≠ .outOfFuel → searchCycle g (fuel + 1) path v = searchCycle g fuel path v
   | 0, _, _, h => by unfold searchCycle at h; exact absurd rfl h
   | fuel + 1, path, v, h => by
     unfold searchCycle at h ⊢
     exact searchChildren_congr _ _ path (fun p n hn => searchCycle_mono g fuel p n hn) _ h
 
-theorem searchCycle_mono_le (g : G) (path : List String) (v : String) (fuel : Nat) (h : searchCycle g fuel path v ≠ .outOfFuel) :
+theorem searchCycle_mono_le (g : G α) (path : List α) (v : α) (fuel : Nat) (h : searchCycle g fuel path v ≠ .outOfFuel) :
     ∀ k, searchCycle g (fuel + k) path v = searchCycle g fuel path v
   | 0 => rfl
   | k + 1 => by
@@ -45,7 +47,7 @@ theorem searchCycle_mono_le (g : G) (path : List String) (v : String) (fuel : Na
     have : searchCycle g (fuel + k) path v ≠ .outOfFuel := by rw [ih]; exact h
     rw [← Nat.add_assoc, searchCycle_mono g (fuel + k) path v this, ih]
 
-theorem checkFrom_congr (g : G) (f1 f2 : Nat) : ∀ (vs : List String),
+theorem checkFrom_congr (g : G α) (f1 f2 : Nat) : ∀ (vs : List α),
     (∀ v ∈ vs, searchCycle g f2 [v] v = searchCycle g f1 [v] v) → checkFrom g f2 vs = checkFrom g f1 vs
   | [], _ => rfl
   | v :: rest, h => by
@@ -134,11 +136,11 @@ end Inc
 
 namespace Ext
 
-theorem resolve_mono (fs : FS) (main : String) : ∀ (fuel : Nat) (svcs : Services) (name : String) (tr : Tracker),
+theorem resolve_mono (fs : FS) : ∀ (fuel : Nat) (main : String) (svcs : Services) (name : String) (tr : Tracker),
     (resolve fs main fuel svcs name tr).1 ≠ .outOfFuel →
     resolve fs main (fuel + 1) svcs name tr = resolve fs main fuel svcs name tr
-  | 0, _, _, _, h => by unfold resolve at h; exact absurd rfl h
-  | fuel + 1, svcs, name, tr, h => by
+  | 0, _, _, _, _, h => by unfold resolve at h; exact absurd rfl h
+  | fuel + 1, main, svcs, name, tr, h => by
     unfold resolve at h ⊢
     split
     · rfl
@@ -155,14 +157,14 @@ theorem resolve_mono (fs : FS) (main : String) : ∀ (fuel : Nat) (svcs : Servic
         · rfl
         · rename_i tr' hadd
           simp only [hadd] at h
-          have hne : (resolve fs main fuel (target.getD svcs) ref tr').1 ≠ .outOfFuel := by
+          have hne : (resolve fs file fuel (target.getD svcs) ref tr').1 ≠ .outOfFuel := by
             intro he
-            generalize resolve fs main fuel (target.getD svcs) ref tr' = res at h he
+            generalize resolve fs file fuel (target.getD svcs) ref tr' = res at h he
             obtain ⟨r1, b, s'⟩ := res
             simp only at he
             subst he
             simp at h
-          rw [resolve_mono fs main fuel (target.getD svcs) ref tr' hne]
+          rw [resolve_mono fs fuel file (target.getD svcs) ref tr' hne]
 
 theorem resolve_mono_le (fs : FS) (main : String) (svcs : Services) (name : String) (tr : Tracker) (fuel : Nat)
     (h : (resolve fs main fuel svcs name tr).1 ≠ .outOfFuel) :
@@ -171,7 +173,7 @@ theorem resolve_mono_le (fs : FS) (main : String) (svcs : Services) (name : Stri
   | k + 1 => by
     have ih := resolve_mono_le fs main svcs name tr fuel h k
     have : (resolve fs main (fuel + k) svcs name tr).1 ≠ .outOfFuel := by rw [ih]; exact h
-    rw [← Nat.add_assoc, resolve_mono fs main (fuel + k) svcs name tr this, ih]
+    rw [← Nat.add_assoc, resolve_mono fs (fuel + k) main svcs name tr this, ih]
 
 end Ext
 end CV.C01
